@@ -83,9 +83,18 @@ func strBytes(v value) ([]value, bool) {
 func mkStr(b []value) value {
 	bs := make([]byte, len(b))
 	for i, c := range b {
+		if c == nil { // lazily zeroed cell of a large buffer
+			continue
+		}
 		x, ok := c.(int64)
 		if !ok {
-			return SymStr{append([]value{}, b...)}
+			cp := append([]value{}, b...)
+			for j := range cp {
+				if cp[j] == nil {
+					cp[j] = int64(0)
+				}
+			}
+			return SymStr{cp}
 		}
 		bs[i] = byte(x)
 	}
